@@ -102,8 +102,14 @@ func containsAny(s string, subs ...string) bool {
 func (c *Ctx) hwmFamily(prefix string) {
 	p := c.P
 	set := p.Calls("litefs.(*DB).SetHWM")
-	c.OnlyIn(prefix+"/setters", set, []string{pat("litefs.(*Store).streamBackupDB"), pat("litefs.(*Store).streamBackupDBSnapshot"), pat("litefs.(*Store).monitorLeaseAsReplica")}, 3,
-		"SetHWM is called only by the two backup upload paths and the replica's HWM frame handler", "")
+	c.OnlyIn(prefix+"/setters", set, []string{pat("litefs.(*Store).streamBackupDB"), pat("litefs.(*Store).streamBackupDBSnapshot"), pat("litefs.(*Store).monitorLeaseAsReplica"), pat("litefs.(*Store).restoreDBFromBackup")}, 4,
+		"SetHWM is called only by the two backup upload paths, the restore from the service and the replica's HWM frame handler", "")
+	{
+		rb := "litefs.(*Store).restoreDBFromBackup"
+		c.ExpectAll(prefix+"/restore/origin", c.CallArgs(rb, set, 1), pat("litefs.(*DB).Pos(litefs.(*Store).CreateDBIfNotExists(p0, p2)#0).TXID"), 1, "after a restore the mark is the restored position's TXID (what the service holds)", "a mark kept from the abandoned history exceeds what the service has: retention may remove files it never received")
+		c.Before(prefix+"/restore/after-apply", rb, set, p.PlainCalls("litefs.(*DB).ApplyLTXNoLock"), 1, "... read after the snapshot was applied", "")
+		c.Before(prefix+"/restore/always", rb, p.SuccessReturn, set, 1, "every successful restore sets it", "")
+	}
 	c.OnlyIn(prefix+"/field", p.Writes("litefs.DB.hwm"), []string{pat("litefs.(*DB).SetHWM")}, 1, "DB.hwm is written only by SetHWM", "")
 	c.OnlyGuards(prefix+"/set-unconditional", "litefs.(*DB).SetHWM", p.Writes("litefs.DB.hwm"), nil, 1, "SetHWM stores the mark under no condition (it follows the service down as well as up)", "a mark that only moves forward stays above what a rolled-back or replaced service acknowledges: retention then deletes files the service never received")
 	c.ExpectAll(prefix+"/set-stores-argument", c.CallArgs("litefs.(*DB).SetHWM", p.Writes("litefs.DB.hwm"), 1), pat("p1"), 1, "the value stored is the argument", "")
